@@ -81,7 +81,7 @@ def hist_cache_control(W, ops, prng):
             else:
                 model[k] = str(int(v))
         elif op == "s":
-            a, v = prng.choice(CCS), prng.choice([True, False, None, "x", "a, b", 'q"uo'])
+            a, v = prng.choice(CCS), prng.choice([True, False, None, "x", "a, b", 'q"uo', 5, 0, 2.5])
             setattr(cc, a, v)
             hist.append((a, v))
             k = a.replace("_", "-")
@@ -90,7 +90,7 @@ def hist_cache_control(W, ops, prng):
             elif v is True:
                 model[k] = None
             else:
-                model[k] = v
+                model[k] = str(v)  # directive values are text, whatever was assigned
         elif op == "del":
             a = prng.choice(CCB + CCI + CCS)
             delattr(cc, a)
